@@ -2,6 +2,7 @@
 package zzverif
 
 import (
+	"runtime"
 	"sync"
 	"time"
 	"encoding/json"
@@ -112,6 +113,29 @@ func Assert(ok bool, msg string) {
 }
 func Reach(label string)           {}
 func Native() bool                 { return true }
+func Ite(c bool, a, b int) int {
+	if c {
+		return a
+	}
+	return b
+}
+
+var goroutineBase = -1
+
+// LiveGoroutines: goroutines started since the first call that are still alive after a grace period.
+func LiveGoroutines() int {
+	if goroutineBase < 0 {
+		goroutineBase = runtime.NumGoroutine()
+		return 0
+	}
+	for i := 0; i < 20; i++ {
+		if runtime.NumGoroutine() <= goroutineBase {
+			return 0
+		}
+		time.Sleep(10 * time.Millisecond)
+	}
+	return runtime.NumGoroutine() - goroutineBase
+}
 func Known(name, label string, c bool) {}
 func Terminates(fn string, n int)  {}
 func Param(name string, def int) int {
